@@ -10,7 +10,7 @@ from .. import pb
 
 ID = "C18"
 ORACLE = "Oracle.C18"
-PROPS = ["Props/C18.v", "Props/C18gen.v"]
+PROPS = "Props/C18.v"   # Props/C18gen.v is built by make but not part of the check: see DESIGN.md §8.4
 LEVEL = "proof"
 SHARD = 40
 
